@@ -131,6 +131,13 @@ Section Oracle.
         | Some old =>
             let res := if has_checker then resolved_post s snaps post args kwargs old v else resolved in
             post_events_ok t res stb
+            (* when all of them hold, every effective postcondition has been evaluated *)
+            && (if has_checker && forallb (contract_benign RPost true res stb) post && posts_hold m U post res stb
+                then forallb (fun k => existsb (fun e => match e with
+                                                         | EvCond RPost k' _ _ => Z.eqb k' (cid k)
+                                                         | _ => false
+                                                         end) t) post
+                else true)
             && (if has_checker && negb (forallb (contract_benign RPost true res stb) post) then true
                 else if negb (if has_checker then posts_hold m U post res stb else true)
                 then match post_error res stb, r with
